@@ -64,6 +64,9 @@ type wenv struct {
 	loader  *wallet.Loader
 	w       *wallet.Wallet
 	running bool
+	// retry != 0: sync retry interval of the next loaded wallet (default 10 ms: a failed syncWithChain is retried
+	// in-process at once; an hour = "the process is stopped before any retry")
+	retry time.Duration
 }
 
 func newEnv() (*wenv, error) {
@@ -81,8 +84,12 @@ func (e *wenv) close() {
 }
 
 func (e *wenv) newLoader(recW uint32) *wallet.Loader {
+	retry := 10 * time.Millisecond
+	if e.retry != 0 {
+		retry = e.retry
+	}
 	return wallet.NewLoader(params, e.dir, true, 10*time.Second, recW,
-		wallet.WithWalletSyncRetryInterval(10*time.Millisecond))
+		wallet.WithWalletSyncRetryInterval(retry))
 }
 
 func (e *wenv) create(seed []byte, birthday time.Time, recW uint32) error {
@@ -108,20 +115,52 @@ func (e *wenv) reopen(recW uint32) error {
 // startSync connects the wallet to the fake backend and waits until the initial sync (incl. the rescan) has been
 // fully processed.  false = the wallet did not get through syncWithChain within the timeout.
 func (e *wenv) startSync(timeout time.Duration) bool {
+	if !e.beginSync() {
+		return false
+	}
+	for {
+		switch e.waitSync(timeout) {
+		case "done":
+			return true
+		case "stuck":
+			return false
+		}
+	}
+}
+
+// beginSync connects the wallet to the fake backend; waitSync reports the next event of the start-up sync:
+// "done" (initial sync incl. the final rescan fully processed), "hold" (the recovery loop is parked at the armed
+// height, see fakeChain.armHold), "failed" (the injected FilterBlocks failure fired) or "stuck" (timeout).
+func (e *wenv) beginSync() bool {
 	e.fc.resetConn()
+	e.fc.mu.Lock()
+	e.fc.failFired = make(chan struct{}, 1)
+	e.fc.mu.Unlock()
 	c := e.fc.conn()
 	e.w.Start()
 	e.w.SynchronizeRPC(e.fc)
 	e.running = true
-	if !c.send(chain.ClientConnected{}) {
-		return false
-	}
+	return c.send(chain.ClientConnected{})
+}
+
+func (e *wenv) waitSync(timeout time.Duration) string {
+	c := e.fc.conn()
+	e.fc.mu.Lock()
+	reached, fired := e.fc.holdReached, e.fc.failFired
+	e.fc.mu.Unlock()
 	select {
 	case <-c.rescanDone:
+		if c.send(sentinel{}) {
+			return "done"
+		}
+		return "stuck"
+	case <-reached:
+		return "hold"
+	case <-fired:
+		return "failed"
 	case <-time.After(timeout):
-		return false
+		return "stuck"
 	}
-	return c.send(sentinel{})
 }
 
 // stopTimeout bounds Loader.UnloadWallet (Stop + WaitForShutdown + db.Close).  A shutdown that does not come back
@@ -176,15 +215,15 @@ func (e *wenv) stop() {
 // notifications have been processed; RescanFinished is sent by fc.finishHeld.  false = syncWithChain did not get to the
 // rescan within the timeout (it keeps failing and retrying).
 func (e *wenv) reconnect(timeout time.Duration) bool {
-	ch := e.fc.armHold()
+	ch := e.fc.armRescanHold()
 	if !e.fc.send(chain.ClientConnected{}) {
-		e.fc.disarmHold()
+		e.fc.disarmRescanHold()
 		return false
 	}
 	select {
 	case <-ch:
 	case <-time.After(timeout):
-		e.fc.disarmHold()
+		e.fc.disarmRescanHold()
 		return false
 	}
 	return e.fc.send(sentinel{})
@@ -208,16 +247,16 @@ func (e *wenv) importKey(k int, from *fblock, timeout time.Duration) error {
 	if err := e.w.Unlock(prvPass, nil); err != nil {
 		return err
 	}
-	ch := e.fc.armHold()
+	ch := e.fc.armRescanHold()
 	bs := waddrmgr.BlockStamp{Height: from.height, Hash: from.hash, Timestamp: from.hdr.Timestamp}
 	if _, err := e.w.ImportPrivateKey(waddrmgr.KeyScopeBIP0084, importWIF(k), &bs, true); err != nil {
-		e.fc.disarmHold()
+		e.fc.disarmRescanHold()
 		return err
 	}
 	select {
 	case <-ch:
 	case <-time.After(timeout):
-		e.fc.disarmHold()
+		e.fc.disarmRescanHold()
 		return errors.New("rescan request not seen")
 	}
 	if !e.fc.send(sentinel{}) {
